@@ -5,25 +5,26 @@
    run by Run.map_step / map_run from the empty store.  Quantifier: ALL command sequences cs (writes,
    reads, failing commands) whose raft timestamps are strictly increasing and positive
    ([increasing 0 cs]; production proposes every entry with its own time.Now().UnixNano()), under BOTH
-   expiry policies (compact = true: wait_compact generations; false: local_deletion), after EVERY prefix.
-   Expiry commands are outside the model (property C10). *)
+   expiry policies (compact = true: wait_compact generations; false: local_deletion), after EVERY prefix,
+   the expiry commands included (EXPIRE / PERSIST of every type, SETEX); the agreement is stated for what a reader with
+   ANY wall clock [now] sees (an expired collection is seen as absent: Run.xview). *)
 From ZV Require Import Common.Bytes Data.Consts Data.Base Data.Map Data.MapZ Data.MapL Data.Run
-  Data.RepColl Data.RepHS Data.RepL Data.RepZ Data.RepRead Data.RepState Data.PreFix Data.C09Proofs.
+  Data.RepColl Data.RepHS Data.RepL Data.RepZ Data.RepRead Data.RepState Data.PreFix Data.ExpFacts Data.C09Proofs.
 Open Scope Z_scope.
 
 (* (1) the representation invariant holds after every command sequence: stored size = number of element
        keys of the current generation and never 0; zset member->score and score->member keys in bijection;
        list element keys are exactly the sequences head..tail; no element key without a meta key under
        local_deletion; element keys unique *)
-Theorem C09_invariant_after_every_sequence : forall (compact : bool) (cs : list (Z * cmd)),
-  increasing 0 cs -> RepS compact (last_ts 0 cs) (map_run compact cs m_init).
+Theorem C09_invariant_after_every_sequence : forall (compact : bool) (now : Z) (cs : list (Z * cmd)),
+  increasing 0 cs -> RepS compact (last_ts 0 cs) (map_run compact now cs m_init).
 Proof. exact rep_all_sequences. Qed.
 Print Assumptions C09_invariant_after_every_sequence.
 
 (* (2) one step, including commands that fail: the invariant is kept by every command whose timestamp is
        above everything applied so far *)
-Theorem C09_invariant_step : forall (compact : bool) (clock ts : Z) (c : cmd) (s : mstate),
-  RepS compact clock s -> 0 <= clock < ts -> RepS compact ts (fst (map_step compact ts c s)).
+Theorem C09_invariant_step : forall (compact : bool) (clock now ts : Z) (c : cmd) (s : mstate),
+  RepS compact clock s -> 0 <= clock < ts -> RepS compact ts (fst (map_step compact now ts c s)).
 Proof. exact map_step_rep. Qed.
 Print Assumptions C09_invariant_step.
 
@@ -33,20 +34,20 @@ Print Assumptions C09_invariant_step.
        zset  ZCARD = |ZRANGE 0 -1| = |ZRANGEBYSCORE -inf +inf| = |ZRANGEBYLEX - +| (the first two equal as lists,
              the third a permutation of the members), members unique, ZKEYEXIST, ZSCORE = the enumerated score;
        list  LLEN = |LRANGE 0 -1|, LKEYEXIST, LINDEX returns every enumerated element at an index below LLEN *)
-Theorem C09_counts_agree_with_enumerations : forall (compact : bool) (clock : Z) (s : mstate) (key : bytes),
-  RepS compact clock s -> all_agree s key.
+Theorem C09_counts_agree_with_enumerations : forall (compact : bool) (clock now : Z) (s : mstate) (key : bytes),
+  RepS compact clock s -> all_agree compact now s key.
 Proof. exact reps_all_agree. Qed.
 Print Assumptions C09_counts_agree_with_enumerations.
 
 (* (4) the property: after every prefix of every command sequence *)
-Theorem C09_after_every_prefix : forall (compact : bool) (cs : list (Z * cmd)) (key : bytes) (n : nat),
-  increasing 0 cs -> all_agree (map_run compact (firstn n cs) m_init) key.
+Theorem C09_after_every_prefix : forall (compact : bool) (now now' : Z) (cs : list (Z * cmd)) (key : bytes) (n : nat),
+  increasing 0 cs -> all_agree compact now' (map_run compact now (firstn n cs) m_init) key.
 Proof. exact agree_every_prefix. Qed.
 Print Assumptions C09_after_every_prefix.
 
-(* (4b) local_deletion: for ARBITRARY timestamps (the Map model does not look at them there) *)
-Theorem C09_local_any_timestamps : forall (cs : list (Z * cmd)) (key : bytes),
-  all_agree (map_run false cs m_init) key.
+(* (4b) local_deletion: for ARBITRARY timestamps (the collections do not depend on them there) *)
+Theorem C09_local_any_timestamps : forall (now now' : Z) (cs : list (Z * cmd)) (key : bytes),
+  all_agree false now' (map_run false now cs m_init) key.
 Proof. exact agree_local_any_timestamps. Qed.
 Print Assumptions C09_local_any_timestamps.
 
@@ -54,7 +55,7 @@ Print Assumptions C09_local_any_timestamps.
    HSETNX k b 1 all at ts 5 leave HLEN 1 with two fields in HKEYS (the generation of a re-created collection is its
    creation timestamp; open finding of C10, replayed on the Go code with one multi-request list) *)
 Theorem C09_equal_timestamps_refuted :
-  let c := alook empty_coll k_ts (m_hash (map_run true equal_ts_hash m_init)) in
+  let c := x_r (alook (x0 empty_coll) k_ts (m_hash (map_run true 0 equal_ts_hash m_init))) in
   Map.hlen k_ts c = RInt 1 /\ Map.hkeys k_ts c = rbulks [b_a; b_b].
 Proof. exact equal_ts_breaks_agree. Qed.
 Print Assumptions C09_equal_timestamps_refuted.
@@ -126,11 +127,26 @@ Definition ex_cs : list (Z * cmd) :=
 Example C09_ex_increasing : increasing 0 ex_cs.
 Proof. cbn. repeat split; reflexivity. Qed.
 Example C09_ex_state :
-  let s := map_run true ex_cs m_init in
-  Map.scard k_ts (alook empty_coll k_ts (m_set s)) = RInt 1 /\
-  Map.smembers k_ts (alook empty_coll k_ts (m_set s)) = rbulks [b_y] /\
-  Map.hlen k_ts (alook empty_coll k_ts (m_hash s)) = RInt 2 /\
-  zquery k_ts (ZQrange false 0 (-1) true) (alook empty_zcoll k_ts (m_zset s)) =
+  let s := map_run true 0 ex_cs m_init in
+  Map.scard k_ts (x_r (alook (x0 empty_coll) k_ts (m_set s))) = RInt 1 /\
+  Map.smembers k_ts (x_r (alook (x0 empty_coll) k_ts (m_set s))) = rbulks [b_y] /\
+  Map.hlen k_ts (x_r (alook (x0 empty_coll) k_ts (m_hash s))) = RInt 2 /\
+  zquery k_ts (ZQrange false 0 (-1) true) (x_r (alook (x0 empty_zcoll) k_ts (m_zset s))) =
     RArr [RBulk b_m; RFloat (SFin 2); RBulk b_x; RFloat (SFin 2)] /\
-  lquery k_ts (LQrange 0 (-1)) (alook empty_lcoll k_ts (m_list s)) = rbulks [b_b; b_c].
+  lquery k_ts (LQrange 0 (-1)) (x_r (alook (x0 empty_lcoll) k_ts (m_list s))) = rbulks [b_b; b_c].
+Proof. vm_compute. repeat split; reflexivity. Qed.
+
+(* with expiry: a set that expired and was written again keeps the element keys of its old generation in the
+   store (the compaction filter drops them later), yet the reader sees SCARD = |SMEMBERS| = 1; at a read clock
+   after the new expiry it sees the empty set *)
+Definition ex_ttl9 : list (Z * cmd) :=
+  [ (1000000000, CSadd k_ts [b_m; b_x]); (1000000001, CExpire TS k_ts 2);
+    (5000000000, CSadd k_ts [b_y]); (5000000001, CExpire TS k_ts 100) ].
+Example C09_ex_ttl_state :
+  let s := map_run true 0 ex_ttl9 m_init in
+  length (c_elems (x_r (alook (x0 empty_coll) k_ts (m_set s)))) = 3%nat /\
+  Map.scard k_ts (xview forget_c true 6000000000 (alook (x0 empty_coll) k_ts (m_set s))) = RInt 1 /\
+  Map.smembers k_ts (xview forget_c true 6000000000 (alook (x0 empty_coll) k_ts (m_set s))) = rbulks [b_y] /\
+  Map.scard k_ts (xview forget_c true 200000000000 (alook (x0 empty_coll) k_ts (m_set s))) = RInt 0 /\
+  Map.smembers k_ts (xview forget_c true 200000000000 (alook (x0 empty_coll) k_ts (m_set s))) = rbulks [].
 Proof. vm_compute. repeat split; reflexivity. Qed.
